@@ -3,6 +3,7 @@ package main
 import (
 	"crypto/sha256"
 	"fmt"
+	"math"
 	"reflect"
 	"sort"
 
@@ -84,6 +85,30 @@ func nilEmptySwaps(v *schema.V) []*schema.V {
 	return out
 }
 
+// otherNaNs returns a copy of v in which every NaN has the sign bit and another payload.
+func otherNaNs(v *schema.V) *schema.V {
+	if v == nil {
+		return nil
+	}
+	c := v.Clone()
+	if k := v.T.Base().Kind; (k == schema.Float32 || k == schema.Float64) && math.IsNaN(v.F) {
+		c.F = math.Float64frombits(0xfff8000020000001)
+	}
+	for k, f := range v.Fields {
+		c.Fields[k] = otherNaNs(f)
+	}
+	if v.Mem != nil {
+		c.Mem = otherNaNs(v.Mem)
+	}
+	for i, it := range v.Items {
+		c.Items[i] = otherNaNs(it)
+	}
+	for k, e := range v.Ent {
+		c.Ent[k] = otherNaNs(e)
+	}
+	return c
+}
+
 func buildPool(w *schema.Type) []*poolItem {
 	var pool []*poolItem
 	add := func(v *schema.V, label string) {
@@ -103,6 +128,10 @@ func buildPool(w *schema.Type) []*poolItem {
 		}
 		for i, m := range nilEmptySwaps(v) {
 			add(m, fmt.Sprintf("%s (nil<->empty %d)", v.Dev, i))
+		}
+		if v.HasNaN() {
+			// the same value with NaNs of another bit pattern (sign and payload), as arithmetic produces them
+			add(otherNaNs(v), v.Dev+" (NaN with other bits)")
 		}
 		// a value sharing storage with another one: its array is a prefix slice of the other value's array (what
 		// `page.Items = all.Items[:n]` builds); identity of the backing array says nothing about equality
@@ -365,8 +394,15 @@ func partC10(a *hcli.Args, rep *report.Report, univName string, u *schema.Univer
 				s.Transitions++
 				if p.nan || q.nan {
 					// NaN never equals itself: only totality is required of Equals here
-					if _, err := callEquals(p.ptr, q.ptr); err != nil {
+					eq, err := callEquals(p.ptr, q.ptr)
+					if err != nil {
 						rep.Fail(fmt.Sprintf("%s eq equals-panic %s", a.Gen, leaf(p.label)), err.Error(), nil)
+					}
+					// ... and whatever Equals says, Equal values hash alike
+					if err == nil && eq && p.hash != q.hash {
+						rep.Fail(fmt.Sprintf("%s eq equal-but-hash-differs %s ~ %s", a.Gen, leaf(p.label), leaf(q.label)),
+							fmt.Sprintf("type %s: Equals(%s, %s) = true but the hashes are %s and %s", w.Name, p.v, q.v, p.hash, q.hash),
+							eqReplay{a.Gen, "C10", univName, w.Name, p.label, q.label})
 					}
 					s.Class("nan-pair")
 					continue
